@@ -304,3 +304,43 @@ pub fn conversion_edges(out: &mut Out, rng: &mut Rng, thorough: bool) {
         }
     }
 }
+
+
+/// C06: signatures whose commitment R or public key A carries a component of small order (mixed order: neither small nor
+/// prime order).  The verification equation without the cofactor rejects R + T always and A + T unless [k]T = 0; dryoc's
+/// verdict must be libsodium's in every case and through every verifying entry point.
+pub fn mixed_order_signatures(out: &mut Out, rng: &mut Rng) {
+    use curve25519_dalek::constants::{ED25519_BASEPOINT_POINT as B, EIGHT_TORSION};
+    use curve25519_dalek::scalar::Scalar;
+    use dryoc::classic::crypto_sign::*;
+    let wide = |bytes: &[u8]| -> Scalar { let mut w = [0u8; 64]; w.copy_from_slice(bytes); Scalar::from_bytes_mod_order_wide(&w) };
+    for round in 0..6 {
+        let seed: [u8; 32] = rng.arr();
+        let h = sodium::sha512(&seed);
+        let mut ab: [u8; 32] = h[..32].try_into().unwrap(); ab[0] &= 248; ab[31] &= 127; ab[31] |= 64;
+        let a = Scalar::from_bytes_mod_order(ab);
+        let big_a = a * B;
+        let m = rng.bytes(round * 7);
+        let r = wide(&sodium::sha512(&[&h[32..], &m[..]].concat()));
+        for ti in 1..8 {
+            let t = EIGHT_TORSION[ti];
+            for which in 0..2 {
+                // which = 0: R' = rB + T under the honest key; which = 1: honest R, public key A' = A + T
+                let (r_enc, a_enc) = if which == 0 { ((r * B + t).compress().to_bytes(), big_a.compress().to_bytes()) } else { ((r * B).compress().to_bytes(), (big_a + t).compress().to_bytes()) };
+                let k = wide(&sodium::sha512(&[&r_enc[..], &a_enc[..], &m[..]].concat()));
+                let s_ = r + k * a;
+                let mut sig = [0u8; 64]; sig[..32].copy_from_slice(&r_enc); sig[32..].copy_from_slice(s_.as_bytes());
+                let want = sodium::sign_verify_detached(&sig, &m, &a_enc);
+                out.search_evaluations += 3;
+                let rp = json!({"op":"sign.verify_detached","pk":hx(&a_enc),"msg":hx(&m),"sig":hx(&sig),"what":if which == 0 { "commitment R + T" } else { "public key A + T" },"torsion_index":ti});
+                let d = guard(|| crypto_sign_verify_detached(&sig, &m, &a_enc));
+                if d.is_panic() || d.is_ok() != want { out.hit("sign.verify.mixed-order-differs-from-libsodium", format!("{} with torsion point #{}: dryoc {} libsodium {}", if which == 0 { "R + T" } else { "A + T" }, ti, d.class(), want), rp.clone()); }
+                let sm = [sig.to_vec(), m.clone()].concat();
+                let o = guard(|| { let mut mm = vec![0u8; m.len()]; crypto_sign_open(&mut mm, &sm, &a_enc).map(|_| mm) });
+                if o.is_panic() || o.is_ok() != want { out.hit("sign.open.mixed-order-differs-from-libsodium", format!("torsion point #{}: dryoc {} libsodium {}", ti, o.class(), want), rp.clone()); }
+                let ov = guard(|| dryoc::sign::VecSignedMessage::from_bytes(&sm).and_then(|x| x.verify(&StackByteArray::<32>::from(&a_enc))));
+                if ov.is_panic() || ov.is_ok() != want { out.hit("obj.sign.verify.mixed-order-differs-from-libsodium", format!("torsion point #{}: dryoc {} libsodium {}", ti, ov.class(), want), rp.clone()); }
+            }
+        }
+    }
+}
